@@ -17,6 +17,15 @@ Local Open Scope N_scope.
 
 Definition K (ih : N) (ivs : valset) (s : kstate) : Prop := INV ih ivs s /\ pok s /\ X ih ivs s.
 
+(** the voting view of [m] is about to commit the proposed header [p] *)
+Definition commit_cond (m : kstate) (p : ph) : Prop :=
+  In p (v_phs (k_vot m)) /\ hd_hash (ph_hdr p) <> [] /\ sm_mpc (v_sum (k_vot m)) = hd_hash (ph_hdr p) /\
+  exists maj, byz_majority (sm_avail (v_sum (k_vot m))) = Ok maj /\
+              maj <= map_get (sm_pcp (v_sum (k_vot m))) (hd_hash (ph_hdr p)).
+
+Definition shift_pcp (m : kstate) : cproof :=
+  mk_cproof (v_r (k_vot m)) (vs_pkh (v_vals (k_vot m))) (map (fun e => (fst e, as_sparse (snd e))) (v_pc (k_vot m))).
+
 (** * Write prefixes *)
 Definition ends_hdr (ws : list wr) : bool :=
   match rev ws with WHdr _ _ :: _ => true | _ => false end.
@@ -50,6 +59,12 @@ Proof.
   split; [exact A1|]. split; [exact A2|]. split; [exact A3|exact A4].
 Qed.
 
+(** stores one committed header ahead: the stores of a state [m] (between the stores [a] and [b])
+    that is about to commit [p], plus the committed-header write of that commit *)
+Definition ahead_ok2 (ih : N) (ivs : valset) (a b st : stores) : Prop :=
+  exists m p, K ih ivs m /\ commit_cond m p /\ sadv a (stores_of m) /\ sadv (stores_of m) b /\
+    st = apply_wr (stores_of m) (WHdr (hd_height (ph_hdr p)) (ph_hdr p, shift_pcp m)).
+
 Definition pref (ih : N) (ivs : valset) (s s' : kstate) : Prop :=
   exists ws, st_log s' = st_log s ++ ws /\ stores_of s' = fold_left apply_wr ws (stores_of s) /\
     forall k,
@@ -57,7 +72,8 @@ Definition pref (ih : N) (ivs : valset) (s s' : kstate) : Prop :=
        SI ih ivs (fold_left apply_wr (firstn k ws) (stores_of s)) /\
        sadv (stores_of s) (fold_left apply_wr (firstn k ws) (stores_of s)) /\
        sadv (fold_left apply_wr (firstn k ws) (stores_of s)) (stores_of s')) /\
-      (ends_hdr (firstn k ws) = true -> ahead_ok ih ivs (fold_left apply_wr (firstn k ws) (stores_of s))).
+      (ends_hdr (firstn k ws) = true ->
+       ahead_ok2 ih ivs (stores_of s) (stores_of s') (fold_left apply_wr (firstn k ws) (stores_of s))).
 
 Lemma pref_quiet ih ivs s s' : st_log s' = st_log s -> stores_of s' = stores_of s ->
   SI ih ivs (stores_of s) -> pref ih ivs s s'.
@@ -83,16 +99,18 @@ Proof.
 Qed.
 
 (** the commit: the committed-header write followed by the position write *)
-Lemma pref_commit ih ivs s s' h x nhr :
-  st_log s' = (st_log s ++ [WHdr h x]) ++ [WNhr nhr] ->
-  stores_of s' = apply_wr (apply_wr (stores_of s) (WHdr h x)) (WNhr nhr) ->
+Lemma pref_commit ih ivs s s' p nhr :
+  st_log s' = (st_log s ++ [WHdr (hd_height (ph_hdr p)) (ph_hdr p, shift_pcp s)]) ++ [WNhr nhr] ->
+  stores_of s' = apply_wr (apply_wr (stores_of s) (WHdr (hd_height (ph_hdr p)) (ph_hdr p, shift_pcp s))) (WNhr nhr) ->
   SI ih ivs (stores_of s) -> SI ih ivs (stores_of s') -> sadv (stores_of s) (stores_of s') ->
-  n_ch (sr_nhr (stores_of s)) < h -> pref ih ivs s s'.
+  K ih ivs s -> commit_cond s p -> pref ih ivs s s'.
 Proof.
-  intros L S H H' A Hlt. exists [WHdr h x; WNhr nhr]. split; [rewrite L, <- app_assoc; reflexivity|]. split; [exact S|].
+  intros L S H H' A HK Hcc. exists [WHdr (hd_height (ph_hdr p)) (ph_hdr p, shift_pcp s); WNhr nhr].
+  split; [rewrite L, <- app_assoc; reflexivity|]. split; [exact S|].
   intros [|[|k]]; cbn [firstn fold_left].
   - split; [|discriminate]. intros _. split; [exact H|]. split; [apply sadv_refl|exact A].
-  - split; [discriminate|]. intros _. exists (stores_of s), h, x. split; [exact H|]. split; [exact Hlt|reflexivity].
+  - split; [discriminate|]. intros _. exists s, p. split; [exact HK|]. split; [exact Hcc|].
+    split; [apply sadv_refl|]. split; [exact A|reflexivity].
   - rewrite firstn_nil. cbn [fold_left]. split; [|discriminate].
     intros _. rewrite <- S. split; [exact H'|]. split; [exact A|apply sadv_refl].
 Qed.
@@ -118,9 +136,11 @@ Proof.
   split; [rewrite S2, S1, fold_left_app; reflexivity|].
   intros k. rewrite firstn_app.
   destruct (firstn (k - List.length w1) w2) as [|x l] eqn:E.
-  - rewrite app_nil_r. destruct (P1 k) as [Pc Pa]. split; [|exact Pa].
-    intros Hk. destruct (Pc Hk) as (Q1&Q2&Q3).
-    split; [exact Q1|]. split; [exact Q2|eapply sadv_trans; eassumption].
+  - rewrite app_nil_r. destruct (P1 k) as [Pc Pa]. split.
+    + intros Hk. destruct (Pc Hk) as (Q1&Q2&Q3).
+      split; [exact Q1|]. split; [exact Q2|eapply sadv_trans; eassumption].
+    + intros Hk. destruct (Pa Hk) as (m&p&A1&A2&A3&A4&A5). exists m, p.
+      split; [exact A1|]. split; [exact A2|]. split; [exact A3|]. split; [eapply sadv_trans; eassumption|exact A5].
   - assert (Hlen : (List.length w1 <= k)%nat).
     { destruct (Nat.le_gt_cases (List.length w1) k) as [Hle|Hgt]; [exact Hle|].
       replace (k - List.length w1)%nat with 0%nat in E by lia. discriminate E. }
@@ -131,7 +151,8 @@ Proof.
     split.
     + intros Hk. destruct (Pc Hk) as (Q1&Q2&Q3).
       split; [exact Q1|]. split; [eapply sadv_trans; eassumption|exact Q3].
-    + exact Pa.
+    + intros Hk. destruct (Pa Hk) as (m&p&A1&A2&A3&A4&A5). exists m, p.
+      split; [exact A1|]. split; [exact A2|]. split; [eapply sadv_trans; eassumption|]. split; [exact A4|exact A5].
 Qed.
 
 (** * Round-store cells *)
@@ -227,7 +248,11 @@ Proof.
   { unfold n1, n1_view, update_observers, increment_voting_round. cbn. split; [exact N1n|].
     intros H; contradiction. }
   split.
-  { unfold kok, update_observers, increment_voting_round. cbn. intros p [Hp|[]]. apply Xk. right; exact Hp. }
+  { destruct Xk as [Xk0 [Yv Yn]]. split.
+    - unfold kok0, update_observers, increment_voting_round. cbn. intros p [Hp|[]]. apply Xk0. right; exact Hp.
+    - split.
+      + apply (yview_bump (st_rounds s) (st_replayed s) (k_nxt s)). exact Yn.
+      + apply yview_fresh. reflexivity. }
   change (SI ih ivs (mk_stores (v_h (k_nxt s), v_r (k_nxt s), v_h (k_com s), v_r (k_com s))
                                (st_hdrs s) (st_rounds s) (st_replayed s))).
   rewrite Hnh.
@@ -279,13 +304,11 @@ Proof.
 Qed.
 
 Lemma K_shift ih ivs s p :
-  K ih ivs s -> In p (v_phs (k_vot s)) ->
-  (exists maj, byz_majority (sm_avail (v_sum (k_vot s))) = Ok maj /\
-               maj <= map_get (sm_pcp (v_sum (k_vot s))) (hd_hash (ph_hdr p))) ->
+  K ih ivs s -> commit_cond s p ->
   K ih ivs (shift_voting_to_committing s (ph_hdr p)) /\
   pref ih ivs s (shift_voting_to_committing s (ph_hdr p)).
 Proof.
-  intros (HI&HP&HX) Hin Hmaj.
+  intros HK0 Hcc. pose proof Hcc as (Hin&_&_&Hmaj). pose proof HK0 as (HI&HP&HX).
   pose proof (INV_shift ih ivs s p HI Hin Hmaj) as HI'.
   pose proof (tinv_shift s p HP Hin) as [_ HP'].
   destruct HI as (Hc&Ha&Hs&Hh). destruct HX as (Xc&(Nc&Nv&Nn)&(N1v&N1n)&Xk&Xs).
@@ -329,7 +352,8 @@ Proof.
     split.
     { unfold n1, n1_view, shift_voting_to_committing, update_observers. cbn. split; intros H; contradiction. }
     split.
-    { unfold kok, shift_voting_to_committing, update_observers. cbn. intros q [[]|[]]. }
+    { split; [unfold kok0, shift_voting_to_committing, update_observers; cbn; intros q [[]|[]]|].
+      split; apply yview_fresh; reflexivity. }
     exists (v_h (k_vot s) + 1), 0, (v_h (k_vot s)), (v_r (k_vot s)).
     unfold stores_of. cbn [sr_nhr sr_hdrs sr_rounds sr_replayed]. rewrite Ehdrs.
     split.
@@ -352,18 +376,17 @@ Proof.
     { intros h x cp [E|Hx]; [|eapply Hfine; exact Hx]. inversion E; subst.
       destruct (HP p (or_introl Hin)) as [W1 W2].
       destruct Hc as (_&_&_&_&_&_&_&_&_&Hphs&_). destruct (Hphs p (or_introl Hin)) as (_&_&Pnext&_).
-      split; [exact W1|]. split; [exact Pnext|]. split; [exact W2|]. apply Xk. left; exact Hin. }
+      split; [exact W1|]. split; [exact Pnext|]. split; [exact W2|]. apply (proj1 Xk). left; exact Hin. }
     split.
     { destruct HI' as (_&_&_&Hh'). unfold hinv in Hh'. rewrite Ehdrs in Hh'. exact Hh'. }
     split.
     { intros h r e He. destruct (Hrounds h r e He) as [Hle _]. split; [lia|]. intros E. lia. }
     intros x Hx. destruct (Hrep x Hx) as [Hle _]. split; [lia|]. intros E. lia. }
   split; [split; [exact HI'|split; [exact HP'|exact HX']]|].
-  apply (pref_commit ih ivs s _ (hd_height (ph_hdr p)) (ph_hdr p, pcp)
+  apply (pref_commit ih ivs s _ p
            (wrap64 (v_h (k_vot s) + 1), 0, v_h (k_vot s), v_r (k_vot s)));
     [reflexivity|reflexivity| |exact (proj2 (proj2 (proj2 (proj2 HX'))))|
-     eapply adv_sadv; [exact Hc|exact (proj1 HI')|eapply adv_shift; eassumption]|
-     unfold stores_of; cbn [sr_nhr]; rewrite Hnhr; unfold n_ch; cbn [fst snd]; rewrite Ph; exact Hcomlt].
+     eapply adv_sadv; [exact Hc|exact (proj1 HI')|eapply adv_shift; eassumption]|exact HK0|exact Hcc].
   exists (v_h (k_vot s)), (v_r (k_vot s)), (v_h (k_com s)), (v_r (k_com s)).
   unfold stores_of. cbn [sr_nhr sr_hdrs sr_rounds sr_replayed].
   split; [exact Hnhr|]. repeat (split; [assumption|]). assumption.
@@ -385,7 +408,8 @@ Proof.
         [|split; [exact H|apply pref_refl; exact HS]].
       pose proof (find_in _ _ _ Hf) as Hin.
       pose proof (find_some _ _ Hf) as [_ Heq]. apply bytes_eqb_eq in Heq.
-      apply K_shift; [exact H|exact Hin|].
+      apply K_shift; [exact H|].
+      split; [exact Hin|]. split; [rewrite Heq, Hm; discriminate|]. split; [symmetry; exact Heq|].
       exists maj. split; [exact Hmaj|]. rewrite Heq. apply N.ltb_ge in Hlt. exact Hlt.
 Qed.
 
@@ -462,7 +486,7 @@ Theorem restart_K ih ivs st vals log :
 Proof.
   intros Hih Hivs HSI.
   destruct (restart_on_SI ih ivs st vals log Hih Hivs HSI)
-    as (s0&s1&Er&Ec&Es&El&Ev&I0&T0&C0&N0&N10&K0&I1&T1&A1).
+    as (s0&s1&Er&Ec&Es&El&Ev&I0&T0&C0&N0&N10&K0&L0&I1&T1&A1).
   assert (HK0 : K ih ivs s0).
   { split; [exact I0|]. split; [exact (proj2 T0)|]. split; [exact C0|]. split; [exact N0|].
     split; [exact N10|]. split; [exact K0|]. rewrite Es. exact HSI. }
